@@ -1,31 +1,7 @@
 /* C06: data-structure contract of altintegration::ReadStream.
  * rs_valid(r)  ==  m_Pos <= m_Size  /\  m_Buffer readable for m_Size bytes (is_fresh in requires).
  * Every operation: requires rs_valid, ensures rs_valid, buffer/size/version unchanged, frame = {m_Pos, *out}. */
-#include <stddef.h>
-#include <stdint.h>
-/* CBMC's C++ front end lays classes out without padding; the mirror is packed and the equality of the two layouts is an
- * obligation of every harness (check_layout in wrappers.cpp), not an assumption. */
-struct __attribute__((packed)) RS { uint32_t m_version; size_t m_Pos; const uint8_t* m_Buffer; size_t m_Size; };
-const size_t RS_LAYOUT[5] = {sizeof(struct RS), offsetof(struct RS, m_version), offsetof(struct RS, m_Pos),
-                             offsetof(struct RS, m_Buffer), offsetof(struct RS, m_Size)};
-#define R(r) ((struct RS*)(r))
-#ifndef MAXBUF
-#define MAXBUF 0x7fffffffffffUL   /* is_fresh cannot allocate more than CBMC's max object size */
-#endif
-#define RS_FRESH(rs)                                                          \
-  __CPROVER_requires(__CPROVER_is_fresh(rs, sizeof(struct RS)))               \
-  __CPROVER_requires(R(rs)->m_Size <= MAXBUF)                                 \
-  __CPROVER_requires(__CPROVER_is_fresh(R(rs)->m_Buffer, R(rs)->m_Size))      \
-  __CPROVER_requires(R(rs)->m_Pos <= R(rs)->m_Size)
-#define RS_KEEPS(rs)                                                          \
-  __CPROVER_ensures(R(rs)->m_Pos <= R(rs)->m_Size)                            \
-  __CPROVER_ensures(R(rs)->m_Size == __CPROVER_old(R(rs)->m_Size))            \
-  __CPROVER_ensures(R(rs)->m_Buffer == __CPROVER_old(R(rs)->m_Buffer))        \
-  __CPROVER_ensures(R(rs)->m_version == __CPROVER_old(R(rs)->m_version))
-#define OLDPOS(rs) __CPROVER_old(R(rs)->m_Pos)
-#define OLDREM(rs) (__CPROVER_old(R(rs)->m_Size) - __CPROVER_old(R(rs)->m_Pos))
-#define RET __CPROVER_return_value
-
+#include <rs_contract.h>
 /* k is a ghost index: the clause on out[k] holds for an arbitrary k, i.e. for all k */
 int w_rs_read_c(void* rs, size_t size, uint8_t* out, size_t k)
 RS_FRESH(rs)
